@@ -141,6 +141,14 @@ def run(ctx):
                   "[*].abs(@) | [-1]", "reverse(@)[0]", "sum(@)", "avg(@)", "max(@)", "min_by(@, &@)", "max_by(@, &@)", "[?@ >= `0`] | length(@)", "length([])",
                   "length(@)", "join('', map(&to_string(@), @)) | length(@)", "[::-1][0]", "[1:] | length(@)", "length(to_string(@))", "contains(@, `6`)"):
             sized.append(C.hexs(e) + "\t" + d)
+    # the same inner text inside different delimiters, one after the other in ONE expression and in consecutive expressions of one process (a pool of
+    # decoded texts shared between literal and quoted-identifier scanning — or keyed before un-escaping — confuses them; what one build rejects every build rejects)
+    for inner in ['x\\`y', 'a', 'a b', '\\u0041', 'x\\"y', "x'y", 'x\\\\y', '1', 'true', 'é', 'x\\ny', '\\`', 'a\\`b\\`c']:
+        lit, qid, raw = '`"%s"`' % inner, '"%s"' % inner, "'%s'" % inner
+        for e in [lit, qid, "[%s, %s]" % (lit, qid), "[%s, %s]" % (qid, lit), "%s || %s" % (lit, qid), "{k: %s}.%s" % (lit, qid), "[%s, %s, %s]" % (raw, lit, qid),
+                  "%s == %s" % (lit, raw), qid + "." + qid, "[%s, %s]" % (lit, lit)]:
+            sized.append(C.hexs(e) + "\t{ s78 u1 }")
+            streams["parse"].append(C.hexs(e))
     streams["eval"] = streams["eval"] + sized
     if getattr(ctx, "replay", None):
         streams = {ctx.replay["stream"]: [ctx.replay["case"]]}
